@@ -10,9 +10,9 @@ from . import wl_groups as wl
 
 PROPERTY = "C30"
 LEVEL = "exploration"
-SCENARIOS = {"nofault": 2, "wkc-faults": 3, "loss": 1}
+SCENARIOS = {"nofault": 2, "wkc-faults": 3, "loss": 1, "two-groups": 2}
 TIERS = {"quick": {"runs": 5000, "chunk": 20}, "thorough": {"runs": 50000000, "wall_s": 600, "chunk": 100, "recheck": 16}}
-RULE = ("one run = 1-5 simulated I/O terminals (input/output sizes 0..12, FMMU or direct "
+RULE = ("one run (in 'two-groups': two slow groups on one master sharing terminals for reading) = 1-5 simulated I/O terminals (input/output sizes 0..12, FMMU or direct "
         "addressing), 1-3 recording devices linked to drawn bit/byte variables, one real "
         "slow SyncGroup started on the simulated bus and run for 6-30 cycles; the terminals "
         "produce input patterns unique to (terminal, offset, cycle); the bus returns, per "
@@ -50,15 +50,14 @@ def run(tape, scenario):
     world = env.world
     bus = env.bus
     ec = EtherCat("sim0")
+    two = scenario == "two-groups"
     specs = wl.gen_specs(tape, "c30")
     sims, terms = wl.build(env, ec, specs)
     links = wl.gen_links(tape, specs, "c30")
-    ndev = 1 + tape.draw("c30/ndev", 3)
-    dev_links = [[] for _ in range(ndev)]
-    for ln in links:
-        dev_links[tape.draw("c30/dev", ndev)].append(ln)
-    if not any(dev_links):
-        dev_links[0] = [dict(term=0, sm="in" if specs[0]["in_sz"] else "out", pos=0, size="B")]
+    if not links:
+        links = [dict(term=0, sm="in" if specs[0]["in_sz"] else "out", pos=0, size="B")]
+    # two groups: the outputs of a terminal belong to one group, inputs may be read by both
+    out_owner = {k: tape.draw("c30/out-owner", 2) for k in range(len(specs))} if two else {}
     violations = []
 
     def viol(rule, detail, **params):
@@ -66,69 +65,169 @@ def run(tape, scenario):
             violations.append({"rule": rule, "params": params, "detail": detail})
 
     model = [bytearray(sp["out_sz"]) for sp in specs]      # reference output areas
-    devices = []
-    cycles = []          # one record per update_devices call
-    current = {}
-
-    def on_update(dev):
-        rec = current
-        ins = [ln for ln in dev.links if ln["sm"] == "in"]
-        outs = [ln for ln in dev.links if ln["sm"] == "out"]
-        rec["reads"].extend((ln, getattr(dev, f"i{i}")) for i, ln in enumerate(ins))
-        for j, ln in enumerate(outs):
-            if tape.chance("c30/set-output", 70):
-                v = wl.draw_value(tape, ln, "c30")
-                setattr(dev, f"o{j}", v)
-                wl.apply_output(ln, model[ln["term"]], v)
-
-    for dl in dev_links:
-        if not dl:
-            continue
-        ins = [ln for ln in dl if ln["sm"] == "in"]
-        outs = [ln for ln in dl if ln["sm"] == "out"]
-        cls = make_device_class(len(ins), len(outs))
-        dev = cls()
-        dev.links = dl
-        dev.on_update = on_update
-        for i, ln in enumerate(ins):
-            setattr(dev, f"i{i}", PacketVar(terms[ln["term"]], SyncManager.IN, ln["pos"], ln["size"]))
-        for j, ln in enumerate(outs):
-            setattr(dev, f"o{j}", PacketVar(terms[ln["term"]], SyncManager.OUT, ln["pos"], ln["size"]))
-        devices.append(dev)
-    rw = {k for dl in dev_links for ln in dl if ln["sm"] == "out" for k in [ln["term"]]}
-    used = {ln["term"] for dl in dev_links for ln in dl}
-
-    # independent expectation of the working counter of each datagram
-    def expected_wkc(d):
-        if d.cmd == LRD:
-            return sum(1 for k in used if specs[k]["use_fmmu"] and specs[k]["in_sz"])
-        if d.cmd == LWR:
-            return sum(1 for k in rw if specs[k]["use_fmmu"] and specs[k]["out_sz"])
-        if d.cmd in (FPRD, FPWR):
-            return 1
-        return None
-
     resp_cycle = {}       # response payload -> terminal cycle at ring time
-    snapshots = {}        # tx payload -> (cycle index, model snapshot)
-    wkc_faulted = {}      # frame no -> list of (datagram index, new wkc)
+    started = [False]
+    fault_mode = scenario == "wkc-faults"
+    groups = []
+
+    class Group:
+        def __init__(self, gi, glinks):
+            self.gi = gi
+            self.links = glinks
+            self.cycles = []
+            self.current = {}
+            self.snapshots = {}     # tx payload -> (cycle index, model snapshot)
+            self.finishing = False
+            self.ncycles = 6 + tape.draw("c30/cycles", 25)
+            ndev = 1 + tape.draw("c30/ndev", 3)
+            per = [[] for _ in range(ndev)]
+            for ln in glinks:
+                per[tape.draw("c30/dev", ndev)].append(ln)
+            self.devices = []
+            for dl in per:
+                if not dl:
+                    continue
+                ins = [ln for ln in dl if ln["sm"] == "in"]
+                outs = [ln for ln in dl if ln["sm"] == "out"]
+                dev = make_device_class(len(ins), len(outs))()
+                dev.links = dl
+                dev.on_update = self.on_update
+                for i, ln in enumerate(ins):
+                    setattr(dev, f"i{i}", PacketVar(terms[ln["term"]], SyncManager.IN,
+                                                    ln["pos"], ln["size"]))
+                for j, ln in enumerate(outs):
+                    setattr(dev, f"o{j}", PacketVar(terms[ln["term"]], SyncManager.OUT,
+                                                    ln["pos"], ln["size"]))
+                self.devices.append(dev)
+            self.rw = {ln["term"] for ln in glinks if ln["sm"] == "out"}
+            self.used = {ln["term"] for ln in glinks}
+            self.sg = SyncGroup(ec, self.devices)
+            self.orig_update = self.sg.update_devices
+            self.sg.update_devices = self.update_devices
+
+        def on_update(self, dev):
+            rec = self.current
+            ins = [ln for ln in dev.links if ln["sm"] == "in"]
+            outs = [ln for ln in dev.links if ln["sm"] == "out"]
+            rec["reads"].extend((ln, getattr(dev, f"i{i}")) for i, ln in enumerate(ins))
+            for j, ln in enumerate(outs):
+                if tape.chance("c30/set-output", 70):
+                    v = wl.draw_value(tape, ln, "c30")
+                    setattr(dev, f"o{j}", v)
+                    wl.apply_output(ln, model[ln["term"]], v)
+
+        def expected_wkc(self, d):
+            """independent expectation of the working counter of a datagram"""
+            if d.cmd == LRD:
+                return sum(1 for k in self.used if specs[k]["use_fmmu"] and specs[k]["in_sz"])
+            if d.cmd == LWR:
+                return sum(1 for k in self.rw if specs[k]["use_fmmu"] and specs[k]["out_sz"])
+            if d.cmd in (FPRD, FPWR):
+                return 1
+            return None
+
+        def update_devices(self, data):
+            sg = self.sg
+            started[0] = True
+            if scenario in ("loss", "two-groups"):
+                wf.loss = 15 if scenario == "loss" else 6
+            before = sg.wkc_errors
+            resp = bytes(data)
+            self.current = dict(resp=resp, reads=[])
+            out = self.orig_update(data)
+            self.current["delta"] = sg.wkc_errors - before
+            self.current["next"] = bytes(out)
+            self.cycles.append(self.current)
+            k = len(self.cycles)
+            self.snapshots[bytes(out)] = (k, {t: bytes(model[t]) for t in self.rw})
+            if k >= 2:
+                self.judge_cycle(k, self.current)
+            if k >= self.ncycles and not self.finishing:
+                self.finishing = True
+                if all(g.finishing for g in groups):
+                    wf.loss = 0
+                asyncio.get_event_loop().call_soon(sg.task.cancel)
+            return out
+
+        def judge_cycle(self, k, rec):
+            resp = rec["resp"]
+            if len(resp) >= 8 and struct.unpack_from("<I", resp, 4)[0] != self.sg.packet_index:
+                viol("foreign-frame-delivered-to-group",
+                     f"group {self.gi} (index {self.sg.packet_index}) was handed a frame "
+                     f"with index {struct.unpack_from('<I', resp, 4)[0]}")
+            cyc = resp_cycle.get(resp)
+            if cyc is None:
+                world.count("c30/response-not-matched")
+            else:
+                for ln, got in rec["reads"]:
+                    want = wl.expected_value(ln, sims[ln["term"]].pattern(cyc))
+                    if got != want:
+                        viol("device-saw-wrong-input",
+                             f"group {self.gi} cycle {k}: variable {ln} read {got!r}, the "
+                             f"terminal had put {want!r} into this response")
+            try:
+                _, _, dgrams = parse_ecat(resp)
+            except Exception as e:
+                viol("frame-malformed", f"response of cycle {k}: {e}")
+                return
+            wrong = []
+            for i, d in enumerate(dgrams):
+                exp = self.expected_wkc(d)
+                if exp is None:
+                    continue
+                got, = struct.unpack_from("<H", resp, d.wkc_pos)
+                if got != exp:
+                    wrong.append((i, got, exp))
+            if rec["delta"] != len(wrong):
+                viol("wkc-error-count",
+                     f"group {self.gi} cycle {k}: wkc_errors grew by {rec['delta']}, "
+                     f"{len(wrong)} datagram(s) returned a wrong working counter "
+                     f"(index, got, expected): {wrong}",
+                     high_byte_only=bool(wrong) and all((g ^ e) & 0xff == 0 for _, g, e in wrong))
+
+    if two:
+        l0 = [ln for ln in links if (ln["sm"] == "out" and out_owner[ln["term"]] == 0)
+              or (ln["sm"] == "in" and tape.chance("c30/in-group0", 60))]
+        l1 = [ln for ln in links if (ln["sm"] == "out" and out_owner[ln["term"]] == 1)
+              or (ln["sm"] == "in" and ln not in l0) or (ln["sm"] == "in"
+                                                          and tape.chance("c30/in-both", 30))]
+        fallback = dict(term=0, sm="in" if specs[0]["in_sz"] else "out", pos=0, size="B")
+        if fallback["sm"] == "out":
+            l1 = [ln for ln in l1 if not (ln["sm"] == "out" and ln["term"] == 0)]
+            out_owner[0] = 0
+        groups.append(Group(0, l0 or [fallback]))
+        groups.append(Group(1, l1 or [dict(fallback, sm="in") if specs[0]["in_sz"]
+                                      else dict(term=0, sm="out", pos=0, size="B")]
+                            if (l1 or specs[0]["in_sz"]) else [fallback]))
+        # a terminal needs an FMMU per mapping
+        for k, sp in enumerate(specs):
+            need = sum((1 if sp["in_sz"] and k in g.used else 0) + (1 if k in g.rw else 0)
+                       for g in groups)
+            if sp["use_fmmu"] and need > sims[k].n_fmmu:
+                sims[k].n_fmmu = need
+                sims[k].mem[4] = need
+                terms[k].fmmu_used = [None] * need
+    else:
+        groups.append(Group(0, links))
+
     orig_ring = bus.ring
 
     def ring(no, frame):
         cyc = sims[0].cycle
         out = orig_ring(no, frame)
         resp_cycle[bytes(out[14:])] = cyc
-        snap = snapshots.get(bytes(frame[14:]))
-        if snap is not None:
-            k, areas = snap
-            for t in sorted(rw):
-                if sims[t].outputs() != bytes(areas[t]):
-                    viol("outputs-not-in-next-frame",
-                         f"cycle {k}: terminal {t} received {sims[t].outputs().hex()} with "
-                         f"the following frame, devices had set {bytes(areas[t]).hex()}")
+        for g in groups:
+            snap = g.snapshots.get(bytes(frame[14:]))
+            if snap is not None:
+                k, areas = snap
+                for t in sorted(areas):
+                    if sims[t].outputs() != areas[t]:
+                        viol("outputs-not-in-next-frame",
+                             f"group {g.gi} cycle {k}: terminal {t} received "
+                             f"{sims[t].outputs().hex()} with the following frame, devices "
+                             f"had set {areas[t].hex()}")
         return out
     bus.ring = ring
-
-    fault_mode = scenario == "wkc-faults"
 
     def wkc_fault(no, d, wkc):
         if not fault_mode or d.cmd == NOP or not started[0]:
@@ -141,99 +240,44 @@ def run(tape, scenario):
         return new
     bus.wkc_fault = wkc_fault
 
-    started = [False]
-    sg = SyncGroup(ec, devices)
-    orig_update = sg.update_devices
-    ncycles = 6 + tape.draw("c30/cycles", 25)
-    done = asyncio.Event() if False else None
-
     def tx_monitor(no, frame, transport):
-        if not started[0] or len(cycles) < 1:
+        if not started[0]:
             return
         try:
             _, _, dgrams = parse_ecat(frame[14:])
         except Exception as e:
             viol("frame-malformed", f"frame {no}: {e}")
             return
+        idx, = struct.unpack_from("<I", frame, 18)
+        g = next((g for g in groups if g.sg.packet_index == idx), None)
+        if g is None or len(g.cycles) < 1:
+            return
         bad = [(i, struct.unpack_from("<H", frame, 14 + d.wkc_pos)[0])
                for i, d in enumerate(dgrams)
                if struct.unpack_from("<H", frame, 14 + d.wkc_pos)[0] != 0]
         if bad:
             viol("wkc-not-cleared",
-                 f"frame after cycle {len(cycles)}: working counters {bad} not zero",
-                 high_byte_only=all(v & 0xff == 0 for _, v in bad))
+                 f"group {g.gi}: frame after cycle {len(g.cycles)}: working counters {bad} "
+                 f"not zero", high_byte_only=all(v & 0xff == 0 for _, v in bad))
     bus.monitors.append(tx_monitor)
-
-    def update_devices(data):
-        nonlocal current
-        started[0] = True
-        if scenario == "loss":
-            wf.loss = 15
-        before = sg.wkc_errors
-        resp = bytes(data)
-        current = dict(resp=resp, reads=[])
-        out = orig_update(data)
-        current["delta"] = sg.wkc_errors - before
-        current["next"] = bytes(out)
-        cycles.append(current)
-        k = len(cycles)
-        snapshots[bytes(out)] = (k, [bytearray(a) for a in model])
-        if k >= 2:
-            judge_cycle(k, current)
-        if k >= ncycles and not finishing[0]:
-            finishing[0] = True
-            wf.loss = 0
-            asyncio.get_event_loop().call_soon(sg.task.cancel)
-        return out
-    sg.update_devices = update_devices
-    finishing = [False]
-
-    def judge_cycle(k, rec):
-        resp = rec["resp"]
-        cyc = resp_cycle.get(resp)
-        if cyc is None:
-            world.count("c30/response-not-matched")
-        else:
-            for ln, got in rec["reads"]:
-                want = wl.expected_value(ln, sims[ln["term"]].pattern(cyc)
-                                         if sims[ln["term"]].input_fn is None else None)
-                if got != want:
-                    viol("device-saw-wrong-input",
-                         f"cycle {k}: variable {ln} read {got!r}, the terminal had put "
-                         f"{want!r} into this response")
-        try:
-            _, _, dgrams = parse_ecat(resp)
-        except Exception as e:
-            viol("frame-malformed", f"response of cycle {k}: {e}")
-            return
-        wrong = []
-        for i, d in enumerate(dgrams):
-            exp = expected_wkc(d)
-            if exp is None:
-                continue
-            got, = struct.unpack_from("<H", resp, d.wkc_pos)
-            if got != exp:
-                wrong.append((i, got, exp))
-        if rec["delta"] != len(wrong):
-            viol("wkc-error-count",
-                 f"cycle {k}: wkc_errors grew by {rec['delta']}, {len(wrong)} datagram(s) "
-                 f"returned a wrong working counter (index, got, expected): {wrong}",
-                 high_byte_only=bool(wrong) and all((g ^ e) & 0xff == 0 for _, g, e in wrong))
 
     outcome = []
 
     async def main(loop):
         await ec.connect()
-        task = sg.start()
-        try:
-            await asyncio.wait_for(asyncio.shield(task), 3.0)
-        except asyncio.CancelledError:
-            outcome.append("cancelled")
-        except asyncio.TimeoutError:
-            outcome.append("timeout")
-            task.cancel()
-        except Exception as e:
-            outcome.append(f"{type(e).__name__}: {e}")
+        tasks = []
+        for g in groups:
+            tasks.append(g.sg.start())
+            if two:
+                await asyncio.sleep([0, 2e-3, 7e-3][tape.draw("c30/stagger", 3)])
+        done, pending = await asyncio.wait(tasks, timeout=4.0)
+        for t in tasks:
+            if t in pending:
+                outcome.append("timeout")
+                t.cancel()
+            elif not t.cancelled() and t.exception() is not None:
+                e = t.exception()
+                outcome.append(f"{type(e).__name__}: {e}")
         await asyncio.sleep(0.01)
 
     with env:
@@ -244,15 +288,17 @@ def run(tape, scenario):
         for m, tn, txt in env.loop_exceptions():
             if tn not in ("CancelledError",):
                 viol("library-task-died", f"{m}: {tn}: {txt}", exception=tn)
-    if outcome and outcome[0] not in ("cancelled",) and len(cycles) < ncycles:
-        viol("group-did-not-run", f"{outcome[0]} after {len(cycles)} cycles; specs={specs}")
-    nlinks = sum(len(d) for d in dev_links)
-    world.count("c30/cycles", len(cycles))
+    if outcome and any(len(g.cycles) < g.ncycles for g in groups):
+        viol("group-did-not-run", f"{outcome[0]} after {[len(g.cycles) for g in groups]} "
+             f"cycles; specs={specs}")
+    ncyc = sum(len(g.cycles) for g in groups)
+    world.count("c30/cycles", ncyc)
     return {
         "violations": violations, "stats": dict(world.counters),
         "digest": world.digest.hexdigest(), "sim_time": world.now,
         "schedule": world.digest.hexdigest(),
-        "nontrivial": len(cycles) >= 4 and nlinks >= 1,
-        "sample": {"scenario": scenario, "terminals": specs, "links": dev_links,
-                   "cycles": len(cycles), "missed": sg.missed_counter},
+        "nontrivial": all(len(g.cycles) >= 4 for g in groups),
+        "sample": {"scenario": scenario, "terminals": specs,
+                   "groups": [{"links": g.links, "cycles": len(g.cycles),
+                               "missed": g.sg.missed_counter} for g in groups]},
     }
